@@ -289,6 +289,7 @@ theorem qr_new_preserves_payload (level : Int) (data : List Nat) (q : QRCode)
       obtain ⟨segs, hs, h⟩ := bind_eq_ok h
       cases hs
       obtain ⟨v, hv, h⟩ := bind_eq_ok h
+      simp only [false_and, and_false, if_false] at h
       split at h
       · cases h
       · cases h
